@@ -135,6 +135,10 @@ func c49Alphabet() []c49Entry {
 		{"response#6", "response", jsonrpcMessage{Version: vsn, ID: raw("6"), Result: raw("1")}},
 		{"subscribe#7", "subscribe", jsonrpcMessage{Version: vsn, ID: raw("7"), Method: "t_subscribe", Params: raw(`["sub"]`)}},
 		{"nomethod#8", "call", jsonrpcMessage{Version: vsn, ID: raw("8"), Method: "t_missing"}},
+		// a CALL (with id) whose method name carries the client-side notification suffix must still be answered
+		// (method not found); only the id-less form is a subscription notification and is answered by nothing
+		{"subsuffix#9", "call", jsonrpcMessage{Version: vsn, ID: raw("9"), Method: "t" + notificationMethodSuffix, Params: raw(`{"subscription":"0x1","result":1}`)}},
+		{"notify-subsuffix", "notification", jsonrpcMessage{Version: vsn, Method: "t" + notificationMethodSuffix, Params: raw(`{"subscription":"0x1","result":1}`)}},
 	}
 }
 
@@ -362,8 +366,8 @@ func TestVerif_C49(t *testing.T) {
 	mc.Run(t, "C49", func(r *mc.R) {
 		al := c49Alphabet()
 		maxPre := 3
-		r.Rule("inputs: every single message of a 12-entry alphabet (calls, duplicate id, blocking call, failing call, large result, notifications, invalid entries with/without id, " +
-			"a response object, a subscribe call, an unknown method) and every batch of <=2 (quick) / <=3 (thorough) entries, x timeout {unset,set} x item/size limits; " +
+		r.Rule("inputs: every single message of a 14-entry alphabet (calls, duplicate id, blocking call, failing call, large result, notifications, invalid entries with/without id, " +
+			"a response object, a subscribe call, an unknown method, a call and a notification whose method name ends in the subscription-notification suffix) and every batch of <=2 (quick) / <=3 (thorough) entries, x timeout {unset,set} x item/size limits; " +
 			"for each input ALL schedules of {call processor, timeout timer (may fire at any point until stopped), subscription notifier threads} with <=k preemptions are executed on the real rpc handler " +
 			"(handler.go, subscription.go instrumented); one evaluation = one complete execution; distinct = distinct write histories per input")
 		r.Bound("max_preemptions", maxPre)
